@@ -465,6 +465,11 @@ func (m *lifeModel) Key() (string, []int) {
 	}
 	k += fmt.Sprintf(" lasttick=%s stale=%s", m.lastTick, lifeRegion(stale, m.checkDL))
 	k += fmt.Sprintf(" sil=%s age=%s out=%v ticked=%v last=%v", lifeRegion(m.silence(), m.dT, total), lifeRegion(age, m.checkDL), len(m.pendingOut()) > 0, m.chkTicked == m.chkPhase, m.prevState)
+	// the implementation's own notion of the silence (what the next tick will read): states must not be merged on the
+	// harness's record alone, or a refresh that the agent failed to make would disappear in an already visited state
+	if sp := m.x.agent.getSelectedPair(); sp != nil {
+		k += " implsil=" + lifeRegion(time.Since(sp.Remote.LastReceived()), m.dT, total)
+	}
 
 	return k, []int{m.depth}
 }
